@@ -138,6 +138,8 @@ pub struct MRegion {
     pub bytes: Vec<u8>,
     /// ever held data or was renamed => must survive flush + reopen
     pub persist: bool,
+    /// identity that survives renames (crash engine: "the same region" across snapshots)
+    pub uid: u64,
 }
 
 pub type Model = BTreeMap<String, MRegion>;
@@ -168,6 +170,7 @@ pub struct RawSut {
     pub min_len: usize,
     pub checks: Checks,
     pub write_counter: usize,
+    pub next_uid: u64,
     // statistics of this history
     pub relocations: u32,
     pub reuse_of_freed: u32,
@@ -340,7 +343,13 @@ fn inside_some(holes: &[(usize, usize)], start: usize, size: usize) -> bool {
 
 impl RawSut {
     pub fn open(min_len: usize, checks: Checks) -> Result<Self, String> {
+        Self::open_hooked(min_len, checks, |_| {})
+    }
+
+    /// `before_open` sees the database directory before the first open (crash engine: start the tap)
+    pub fn open_hooked(min_len: usize, checks: Checks, before_open: impl FnOnce(&std::path::Path)) -> Result<Self, String> {
         let dir = Scratch::new("raw");
+        before_open(&dir.path().join("db"));
         let db = Self::open_db(dir.path(), min_len)?;
         Ok(Self {
             dir,
@@ -351,6 +360,7 @@ impl RawSut {
             min_len,
             checks,
             write_counter: 0,
+            next_uid: 0,
             relocations: 0,
             reuse_of_freed: 0,
             reopens_multi: 0,
@@ -545,7 +555,8 @@ impl RawSut {
                     .create_region_if_needed(&name)
                     .map_err(|e| format!("create '{}' failed: {e}", short(&name)))?;
                 if !existed {
-                    self.model.insert(name.clone(), MRegion { bytes: vec![], persist: false });
+                    self.next_uid += 1;
+                    self.model.insert(name.clone(), MRegion { bytes: vec![], persist: false, uid: self.next_uid });
                     let (s, res) = {
                         let m = r.meta();
                         (m.start(), m.reserved())
